@@ -42,11 +42,9 @@ def regexMetaOrEscape (c : Char) : Bool :=
 
 /-- a pattern `^text$` whose text has no regular-expression syntax: matches exactly `text` -/
 def constPattern (p : String) : Option String :=
-  if regexMatchesConstantString p && !((constantStringFromRegex p).toList.any regexMetaOrEscape)
-  then some (constantStringFromRegex p) else none
-where
-  regexMatchesConstantString := Cog.Front.JsonSchema.regexMatchesConstantString
-  constantStringFromRegex := Cog.Front.JsonSchema.constantStringFromRegex
+  if Cog.Front.JsonSchema.regexMatchesConstantString p &&
+      !((Cog.Front.JsonSchema.constantStringFromRegex p).toList.any regexMetaOrEscape)
+  then some (Cog.Front.JsonSchema.constantStringFromRegex p) else none
 
 def patternModelled (a : OAttrs) : Bool := a.pattern = "" || (constPattern a.pattern).isSome
 
@@ -104,36 +102,40 @@ def osrIsColl : OSR → Bool
 def refTarget (comps : Components) : OSR → Option OSR
   | .mk ref _ _ _ => if isRef ref then lookupComp comps (lastSegment ref) else none
 
+/-- the type-directed part of `visitJSON` (`visitJSONBoolean` / `Number` / `String` / `Array` / `Object`) -/
+def typedPart (x : Bool) (fmt : String → String → Bool) (v : OSR → Json → Bool) (a : OAttrs)
+    (props : List (String × OSR)) (addl items : OOpt) (j : Json) : Bool :=
+  match j with
+  | .null => false
+  | .bool _ => permits a "boolean"
+  | .num q => numberOK x a q
+  | .str s => stringOK fmt a s
+  | .arr xs => permits a "array" && (match items with | .some r => xs.all (v r) | .none => true)
+  | .obj ms =>
+    permits a "object" &&
+    ms.all (fun kv =>
+      match propsGet props kv.1 with
+      | some r => v r kv.2 && !(x && !a.required.contains kv.1 && osrIsColl r && isEmptyColl kv.2)
+      | none =>
+        (match a.addlHas with
+         | some false => false
+         | _ => (match addl with | .some r => v r kv.2 | .none => true))) &&
+    a.required.all (fun r => (Json.lookup r ms).isSome)
+
 /-- one level of `visitJSON`; `v` validates schema references -/
 def oavBody (x : Bool) (fmt : String → String → Bool) (v : OSR → Json → Bool) : OS → Json → Bool
   | .mk a allOf anyOf oneOf props addl items, j =>
     if j.isNull && permitsNull a then true
     else if a.isEmpty then !j.isNull && !(x && !anyExact j)
     else
-      let visited := !oneOf.isEmpty || !anyOf.isEmpty || !allOf.isEmpty
       (oneOf.isEmpty || countTrue (oneOf.map fun r => v r j) == 1) &&
       (anyOf.isEmpty || anyOf.any (fun r => v r j)) &&
       allOf.all (fun r => v r j) &&
-      (if visited && j.isNull then true
+      (if (!oneOf.isEmpty || !anyOf.isEmpty || !allOf.isEmpty) && j.isNull then true
        else
         enumOK a j &&
         !(x && osIsAny (.mk a allOf anyOf oneOf props addl items) && !anyExact j) &&
-        (match j with
-         | .null => false
-         | .bool _ => permits a "boolean"
-         | .num q => numberOK x a q
-         | .str s => stringOK fmt a s
-         | .arr xs => permits a "array" && (match items with | .some r => xs.all (v r) | .none => true)
-         | .obj ms =>
-           permits a "object" &&
-           ms.all (fun kv =>
-             match propsGet props kv.1 with
-             | some r => v r kv.2 && !(x && !a.required.contains kv.1 && osrIsColl r && isEmptyColl kv.2)
-             | none =>
-               (match a.addlHas with
-                | some false => false
-                | _ => (match addl with | .some r => v r kv.2 | .none => true))) &&
-           a.required.all (fun r => (Json.lookup r ms).isSome)))
+        typedPart x fmt v a props addl items j)
 
 /-- `SchemaRef` validation: a reference is followed through the component table -/
 def oav (x : Bool) (fmt : String → String → Bool) (comps : Components) : Nat → OSR → Json → Bool
